@@ -191,11 +191,14 @@ def leaf_laws(U, rep):
       sysd = symsys.system('ff', (-1, -1))
       st = symsys.state_maxcoord(2)
       cb = symsys.contact(lidx)
-      inv_mass, inv_inertia = symarr('im', (2,)), symarr('Ii', (2, 3, 3))
-      tr = avn.nested_fn(I, PC, 'resolve_position', 'translate',
-                         {'sys': sysd, 'state': st, 'x_i_prev': T('xp', (2,)), 'inv_mass': inv_mass,
-                          'inv_inertia': inv_inertia})
+      # the enclosing function's own prefix is interpreted, so the closure sees whatever locals the
+      # current source defines; the inverse inertia (a model constant here) is a symbol
+      I.contracts[('brax.com', 'inv_inertia')] = lambda s, x: symarr('Ii', (2, 3, 3))
+      tr, _ = avn.nested_fn_auto(I, PC, 'resolve_position', 'translate',
+                                 {'sys': sysd, 'state': st, 'x_i_prev': T('xp', (2,)), 'contact': cb})
       dp_p, dp_c, lam = I.apply(tr, [cb], {})
+      k = 1 - sysd.f['spring_mass_scale']
+      inv_mass = avn.elemwise(lambda a: 1 / (Rat.lift(a) ** k), sysd.f['link'].f['inertia'].f['mass'])
       w_ = [inv_mass[i] if i > -1 else Rat.lift(0) for i in (lidx[0][0], lidx[1][0])]
       if lidx[0][0] == -1:
         return dp_p.f['pos'][0], P_zeros((3,)), I
